@@ -366,6 +366,29 @@ func (V *Verifier) solveOne(o *Obligation, opt solveOpts) {
 				return
 			}
 		}
+		// split on the conditions of merged slices / memories (every case must be refuted):
+		// reads through an if/else merge of store chains resolve syntactically in each case
+		if cases, _ := ematchCasesSplit(text, 40, 200, 1, true, true); len(cases) > 1 {
+			all := true
+			for ci, ct := range cases {
+				vfile := fmt.Sprintf("%s.qs%d.smt2", strings.TrimSuffix(file, ".smt2"), ci)
+				if err := os.WriteFile(vfile, []byte(ct), 0o644); err != nil {
+					all = false
+					break
+				}
+				res, out, _ := runSolver(cfgZ3New, vfile, opt.timeout/2, opt.seed)
+				outs = append(outs, fmt.Sprintf("[qf-split case %d/%d] %s", ci, len(cases), firstLines(out, 2)))
+				os.Remove(vfile)
+				if res != "unsat" {
+					all = false
+					break
+				}
+			}
+			if all {
+				finish("unsat", fmt.Sprintf("z3-new[qf, %d-way split on merges]", len(cases)), "")
+				return
+			}
+		}
 		if it, err := toIntRendering(text); err == nil {
 			if try("int", it, []solverCfg{cfgZ3New, cfgCvc5}, opt.timeout) {
 				return
